@@ -191,6 +191,7 @@ def make_inline(ctx, scope_def, atoms=None):
 def run(ctx, col, tier):
     from ..rules import smalllints as _small
     _small.run_atol(ctx, col, ('swcgeom.utils.solid_geometry', 'swcgeom.utils.volumetric_object', 'swcgeom.analysis.volume'))
+    _small.run_falsy(ctx, col, ('swcgeom.utils.solid_geometry', 'swcgeom.utils.volumetric_object', 'swcgeom.analysis.volume'))
     col.rule("R-FORM", "each closed form (sphere, cap, frustum, two-sphere lens, the unions), "
              "translated from its AST to an exact rational function, is identical to the "
              "definition's formula (polynomial identity, every coefficient and exponent)", floor=8,
